@@ -207,22 +207,26 @@ def run(ctx):
             if probs:
                 sbad.append((name, mode, probs[:3], text))
             if not mode:
-                # no warning for complete residues
-                complete = set()
-                for cname, conf in o.mol.conformations.items():
-                    if cname != "AVR":
-                        for key, atoms in complete_residues(conf):
-                            complete.add((key[3], key[1], key[0]))
+                # no warning for complete residues: a warning does not say which conformation it is about, so for each
+                # (number, chain) the number of warnings must not exceed the number of conformations in which the residue
+                # is incomplete or irregular
+                names = [c for c in o.mol.conformations if c != "AVR"]
+                complete_in = {}
+                for cname in names:
+                    for key, atoms in complete_residues(o.mol.conformations[cname]):
+                        complete_in.setdefault((key[1], key[0]), set()).add(cname)
+                warned = {}
                 for lg, lv, msg in o.log:
                     if msg.startswith("Missing atoms or failed protonation for"):
                         lab = msg[len("Missing atoms or failed protonation for "):].split(" (")[0]
-                        resn, num, ch = lab[:3], lab[3:7].strip(), lab[7:].strip()
+                        num, ch = lab[3:7].strip(), lab[7:].strip()
                         typ = msg.split("(")[1].split(")")[0]
                         if typ in ("HIS", "ARG", "AMD", "TRP", "BBN") and num.lstrip("-").isdigit():
-                            hit = [c for c in complete if c[1] == int(num) and c[2] == ch]
-                            if hit and (typ != "BBN" or True):
-                                # BBN labels carry the residue type BBN; match by number and chain
-                                wbad.append((name, msg, text))
+                            warned.setdefault((int(num), ch, typ), []).append(msg)
+                for (num, ch, typ), msgs in warned.items():
+                    ncomplete = len(complete_in.get((num, ch), set()))
+                    if len(msgs) > len(names) - ncomplete:
+                        wbad.append((name, msgs[0], text))
         # orientation: default mode, amino-acid hydrogens, a few rotations
         base = observe.run(text, [], want_text=False)
         if base.error:
